@@ -357,7 +357,9 @@ func genReOp(t *rapid.T) ReOp {
 		op.WT = rapid.SampledFrom([]int{model.WTVarint, model.WTFixed64, model.WTBytes, model.WTFixed32}).Draw(t, "wt")
 		switch op.WT {
 		case model.WTVarint:
-			op.Num = rapid.OneOf(rapid.Uint64Range(0, 300), rapid.Uint64()).Draw(t, "num")
+			// every varint length 1..10 bytes: 10-byte varints are what negative int32/int64/enum values look like
+			op.Num = rapid.OneOf(rapid.Uint64Range(0, 300), rapid.Uint64(),
+				rapid.SampledFrom([]uint64{127, 128, 1<<14 - 1, 1 << 14, 1<<56 - 1, 1 << 56, 1<<63 - 1, 1 << 63, 1<<64 - 1, 1<<64 - 2})).Draw(t, "num")
 		case model.WTFixed64:
 			op.Data = gen.BytesN(t, "f64", 8, 8)
 		case model.WTFixed32:
